@@ -21,7 +21,10 @@ Atoms == {"EMPTY", "BLANK", "WORD", "NEG", "ZERO", "ONE", "SEVEN", "HUGE", "FRAC
           \* range; a digit string longer than any integer conversion accepts; 200 nested parentheses
           "TS14BAD", "TS14YR1", "ATEXP", "DIGITS", "DEEP",
           \* a text of several pieces and small positions / limits (string functions with 3-4 arguments)
-          "WORDS", "TWO", "THREE", "NEG1"}
+          "WORDS", "TWO", "THREE", "NEG1",
+          \* characters that text-handling library calls trip over: a NUL byte inside a word, control
+          \* characters, a line break inside a word, a word longer than any file-name limit
+          "NUL", "CTRL", "NLIN", "LONGW"}
 ExprValue == {"NEG", "ZERO", "ONE", "SEVEN", "HUGE", "FRAC", "E"}   \* texts that are a well-formed #expr
 \* page titles the call is expanded on
 Titles == {"plain", "talk", "nstalk", "user"}
@@ -74,7 +77,11 @@ CallD(name, argv, title, D) ==
          IF (Len(argv) = 0 /\ title \in TalkTitles) \/ Arg(argv, 1) = "TALK"
          THEN AsIs("TalkNamespaceLookup", "KeyError", "value") ELSE InBand("value")
     [] c = "rel2abs" ->
-         IF Len(argv) = 0 THEN AsIs("Rel2absNeedsArgument", "IndexError", "fallback") ELSE InBand("value")
+         IF Len(argv) = 0 THEN AsIs("Rel2absNeedsArgument", "IndexError", "fallback")
+         \* Path.resolve() consults the host file system: an embedded NUL byte raises ValueError
+         ELSE IF \E i \in 1..Len(argv) : i <= 2 /\ argv[i] = "NUL"
+              THEN AsIs("Rel2absResolvesOnHost", "ValueError", "value")
+         ELSE InBand("value")
     [] c = "padlr" ->
          IF Arg(argv, 2) = "HUGE" THEN AsIs("PadCountUnbounded", "OverflowError", "value") ELSE InBand("value")
     [] c = "pad" ->
